@@ -447,3 +447,48 @@ contract(RTC + '_run_tests', props=['C19'],
                   ('loader-knows-whether-listing',
                    "loader_choice()[0] != 'tagged' or loader_choice()[1] is check"),
                   ('argv-passed-through', 'main_argv() is argv')])
+
+
+# ---------------------------------------------------------------------------
+# TaggedTestLoader.getTestCaseNames (C19): under a tagged run a class offers all
+# of its tests when the class itself carries the tag, otherwise exactly its
+# tagged methods.  unittest's own name discovery is abstract (A-unittest).
+# ---------------------------------------------------------------------------
+
+def _gtcn_entry(it, senv):
+    n = it.path.choose([True] * 4)
+    names = ['test_%d' % i for i in range(n)]
+    class_tagged = it.path.choose([True, True]) == 1
+    tagged = [it.path.choose([True, True]) == 1 for _ in names]
+    attrs = {'__open__': False}
+    for nm, tg in zip(names, tagged):
+        m = SObj('function', {'__open__': False}, label=nm)
+        if tg:
+            m.attrs['_tagged'] = True
+        attrs[nm] = m
+    if class_tagged:
+        attrs['_tagged'] = True
+    cls = SObj('TestCaseClass', attrs, label='testCaseClass')
+    senv['testCaseClass'] = cls
+    it.path.inputs['testCaseClass'] = cls
+    it.ghost['gtcn'] = (names, class_tagged, tagged)
+    loader = SObj('unittest.TestLoader', {'getTestCaseNames': Builtin(lambda it2, self, c: list(names), 'getTestCaseNames'),
+                                          '__open__': False})
+    it.spec_env['unittest'] = SObj('unittest', {'TestLoader': loader, '__open__': False})
+
+
+@specfn
+def tagged_names(it):
+    names, class_tagged, tagged = it.ghost['gtcn']
+    return list(names) if class_tagged else [n for n, t in zip(names, tagged) if t]
+
+
+def _loader_view(it):
+    o = SObj('TaggedTestLoader', {'check': it.fresh(T.bool, 'check')}, label='self')
+    o.repo_class = extract.load_module('tdda/referencetest/referencetestcase.py').classes['TaggedTestLoader']
+    return o
+
+
+contract(RTC + 'TaggedTestLoader.getTestCaseNames', props=['C19'], params=dict(testCaseClass=None),
+         self_view=_loader_view, on_entry=_gtcn_entry, spec_env=dict(ENV, tagged_names=tagged_names),
+         ensures=[('all-tests-of-a-tagged-class-otherwise-exactly-the-tagged-methods', 'result == tagged_names()')])
